@@ -7,6 +7,9 @@ from vf import mon_layers, runner, scan
 from vf.gens import inputs
 from vf.props import c02, common
 
+import re
+
+_OPERATOR_LITERAL = re.compile(rb"""(["'])[\s_]*(?:&amp;|&|\+)[\s_]*\1""")
 _H = None
 _F = None
 
@@ -45,6 +48,20 @@ def judge_rec(rec, ctx, case, monitor):
             monitor(mon_layers.last_root, lambda k, m: ctx.violation(k, f"{m}; input {rec['data'][:100]!r}", case), ctx.counters)
 
 
+def judge_pair(rec1, rec2, ctx, case, monitor):
+    h, _ = harnesses()
+    ctx.evaluated()
+    try:
+        judged = mon_layers.judge_pair(rec1, rec2, h.md, lambda k, m: ctx.violation(k, m, case), ctx.counters)
+    except Exception as e:  # noqa: BLE001
+        ctx.count("scan_raised(C01):" + type(e).__name__)
+        return
+    if judged:
+        ctx.nontrivial(rec1["data"] + rec2["data"])
+        if monitor is not None and mon_layers.last_root is not None:
+            monitor(mon_layers.last_root, lambda k, m: ctx.violation(k, f"{m}; input {(rec1['data'] + rec2['data'])[:100]!r}", case), ctx.counters)
+
+
 def judge_scan(data, depth, monitor, ctx, label):
     h, _ = harnesses()
     case = {"kind": "scan", "data": runner.hx(data), "depth": depth, "label": label}
@@ -81,6 +98,24 @@ def run_shard(pid, spec, ctx, case_gen, monitor, extra=None):
                 if ctx.begin(case):
                     judge_absent(rec, ctx, case)
                 continue
+            if i % 8 == 0 and not rec.get("wrap"):
+                # the same kind of expression (or another one of this property) earlier in the same text
+                rec0 = None
+                for _ in range(5):
+                    rec0 = case_gen(r)
+                    if rec0 is not None and not rec0.get("absent") and not rec0.get("wrap"):
+                        break
+                    rec0 = None
+                if rec0 is not None and (_OPERATOR_LITERAL.search(rec0["blob"]) or _OPERATOR_LITERAL.search(rec["blob"])):
+                    # a literal that is itself a bare joining operator (the property's own exclusion) can chain text of
+                    # one expression to the other's
+                    ctx.count("pairs_skipped_operator_literal")
+                    rec0 = None
+                if rec0 is not None:
+                    pcase = {"kind": "pair", "first": c02.encode_rec(rec0), "second": c02.encode_rec(rec)}
+                    if ctx.begin(pcase):
+                        judge_pair(rec0, rec, ctx, pcase, monitor)
+                    continue
             case = {"kind": "rec", "rec": c02.encode_rec(rec)}
             if not ctx.begin(case):
                 continue
@@ -133,7 +168,9 @@ def judge_absent(rec, ctx, case):
 
 def replay(pid, case, ctx, monitor):
     common.add_sampler(ctx)
-    if case.get("kind") == "rec":
+    if case.get("kind") == "pair":
+        judge_pair(c02.decode_rec(case["first"]), c02.decode_rec(case["second"]), ctx, case, monitor)
+    elif case.get("kind") == "rec":
         judge_rec(c02.decode_rec(case["rec"]), ctx, case, monitor)
     elif case.get("kind") == "absent":
         judge_absent({"data": runner.unhx(case["data"]), "label": case["label"], "blob": b"?"}, ctx, case)
